@@ -410,3 +410,37 @@ VP_HARNESS(h_enc_big)
     vp_assert(seen, "C07: the sampled payload byte was placed");
     vp_assert(e->getSequenceCounter() == static_cast<uint16_t>(s->start + fr->size()), "C09: reported counter equals the last frame's");
 }
+
+// C09 without the frame model, so that batches outside C07's domain (packets with an empty payload) are covered too: two
+// consecutive encode calls of the batch; every emitted frame carries ids and version, counters run consecutively over both
+// calls, and the reported counter is the last emitted frame's.
+VP_HARNESS(h_enc_counters)
+{
+    Src* s = &g_src;
+    drawSrc(*s);
+    Packet* pk[3] = {nullptr, nullptr, nullptr};
+    for (unsigned i = 0; i < K; ++i)
+        pk[i] = mkPacket(*s, i);
+    Encoder* e = new Encoder;
+    e->setDeviceId(s->deviceId);
+    e->setStreamId(s->streamId);
+    VerifAccess::seq(*e) = s->start;
+    uint16_t last = s->start;
+    for (int call = 0; call < 2; ++call)
+    {
+        Frames* fr = doEncode(*e, pk);
+        vp_assert(fr->size() <= MAXF, "C09: frame count within the harness bound");
+        for (unsigned f = 0; f < MAXF; ++f)
+            if (f < fr->size())
+            {
+                const std::vector<uint8_t>& fb = (*fr)[f];
+                vp_assert(fb.size() >= 8, "C09: every emitted frame holds a frame header");
+                if (fb.size() < 8)
+                    return;
+                vp_assert(fb[0] == s->version && vp_be16(fb.data() + 2) == s->deviceId && fb[5] == s->streamId, "C09: frame header carries the batch's version and the configured device id and stream id");
+                vp_assert(vp_be16(fb.data() + 6) == static_cast<uint16_t>(last + 1), "C09: sequence counter is one greater (mod 65536) than that of the previously emitted frame");
+                last = vp_be16(fb.data() + 6);
+            }
+        vp_assert(e->getSequenceCounter() == last, "C09: the reported counter equals that of the last frame emitted");
+    }
+}
